@@ -539,6 +539,41 @@ func OrderedSoup(r *Rand, v *spec.Version) string {
 	return h + strings.Join(parts, "/")
 }
 
+// Subsequence keeps a random subset of the elements of a well-formed, fully
+// populated vector of version v (order kept; optionally one element repeated or
+// two swapped). This is the natural error class of parsers that walk an order
+// table: group skipping, cursor shifts, missing-metric checks.
+func Subsequence(r *Rand, v *spec.Version) string {
+	a := RandomAssign(r, v)
+	ex := make([]bool, v.N())
+	for i := range ex {
+		ex[i] = true
+	}
+	hdr, el := SplitElems(v, v.Spell(a, ex, nil))
+	var out []string
+	// drop probability: mostly few drops, sometimes many
+	p := 1 + r.Intn(4)
+	for _, e := range el {
+		if r.Intn(8) < p {
+			continue
+		}
+		out = append(out, e)
+	}
+	switch r.Intn(8) {
+	case 0:
+		if len(out) > 0 {
+			i := r.Intn(len(out))
+			out = append(out[:i+1], out[i:]...)
+		}
+	case 1:
+		if len(out) > 1 {
+			i := r.Intn(len(out) - 1)
+			out[i], out[i+1] = out[i+1], out[i]
+		}
+	}
+	return hdr + strings.Join(out, "/")
+}
+
 // Bytes returns a random byte string of length 0..256, uniform or alphabet-biased.
 func Bytes(r *Rand) string {
 	n := r.Intn(257)
